@@ -41,6 +41,8 @@ func mixedGenesis(rng *rand.Rand) (GenesisSpec, map[string]int) {
 			}
 		case "fwd":
 			c.Storage = fwdStorage()
+		case "rep":
+			c.Balance = "4000000000000000000"
 		case "vw":
 			c.Balance = "700000000000000000000"
 		case "sd", "proxy", "factory":
@@ -119,6 +121,9 @@ func genMixedTx(rng *rand.Rand, g *GenesisSpec) Op {
 	case k < 58: // refunds: set or clear 1..8 slots
 		op.To, op.Gas = "c:clear", "i+300000"
 		op.Data = hexWord(1+rng.IntN(8)) + hexWord(pick(rng, 0, 0, 0, 5, 0xff))
+	case k < 60 && rng.IntN(3) == 0: // one contract self-destructs several times in one tx while value keeps arriving
+		op.To, op.Gas = "c:rep", "i+600000"
+		op.Data = "{c:" + pick(rng, "sd", "sd2", "sd3") + "}" + hexWord(pick(rng, 0, 1000, 1000000)) + hexWord(pick(rng, 2, 3, 4)) + "{" + pick(rng, other, "c:store", "c:rep") + "}"
 	case k < 62:
 		op.To, op.Gas = "c:sd", "i+80000"
 		op.Data = "{" + pick(rng, other, fmt.Sprintf("fresh%d", rng.IntN(4)), "c:store", "mod:evm") + "}"
